@@ -374,10 +374,17 @@ def finish(prop, rec, *, tier_name, seed_value, rule, t0, min_nontrivial=2,
         else:
             unknown.append(ent)
 
-    # replay files for unknown classes
+    # replay files for unknown classes (stale ones of this property go first)
     replay_paths = []
+    rdir = os.path.join(VERIF, "replay")
+    if os.path.isdir(rdir):
+        for name in os.listdir(rdir):
+            if name.startswith(prop + "-") and name.endswith(".json"):
+                try:
+                    os.unlink(os.path.join(rdir, name))
+                except OSError:
+                    pass
     if unknown:
-        rdir = os.path.join(VERIF, "replay")
         os.makedirs(rdir, exist_ok=True)
         for ent in unknown:
             name = f"{prop}-{h64(json.dumps(ent['record'], sort_keys=True))}.json"
